@@ -305,7 +305,7 @@ def deep_same(a, b, dict_mode='keep'):
     ta = type(a)
     if ta is not type(b):
         if isinstance(a, dt.tzinfo) and isinstance(b, dt.tzinfo):
-            return std_equal(a, b, deep_same) is None
+            return std_equal(a, b, (lambda x, y, mode=None: deep_same(x, y, 'sort' if dict_mode == 'sort' else (mode or 'keep')))) is None
         return False
     if ta in (list, tuple):
         return len(a) == len(b) and all(deep_same(x, y, dict_mode) for x, y in zip(a, b))
@@ -338,4 +338,4 @@ def deep_same(a, b, dict_mode='keep'):
         return True
     if ta in (int, float, bool, str, bytes) or a is None or a is Ellipsis:
         return eqv.same(a, b)
-    return std_equal(a, b, deep_same) is None
+    return std_equal(a, b, (lambda x, y, mode=None: deep_same(x, y, 'sort' if dict_mode == 'sort' else (mode or 'keep')))) is None
